@@ -48,10 +48,6 @@ type scope struct {
 	// State
 	disposed int32 // atomic
 
-	// closer is the goroutine whose Close call won the disposed flag, while it
-	// runs the disposal (0 before and after)
-	closer atomic.Int64
-
 	// closeDone is closed when the Close call that won the disposed flag has
 	// finished; closeErr is that call's result (read after closeDone).
 	closeDone chan struct{}
@@ -289,20 +285,20 @@ func (s *scope) Close() error {
 	if !atomic.CompareAndSwapInt32(&s.disposed, 0, 1) {
 		// Already closed, or being closed by another goroutine (for example the
 		// context watcher): wait, so that a returned Close always means closed.
-		// A call made from inside that very disposal - by the Close method of an
-		// instance of this scope - cannot wait for it
-		if runsOn(&s.closer) {
+		// A call made from inside that very disposal, or the disposal of a scope
+		// below this one - by the Close method of an instance - cannot wait for it
+		if s.heldByCaller() {
 			return nil
 		}
 		<-s.closeDone
 		return nil
 	}
-	s.closer.Store(goroutineID())
+	running := beginDisposal(s, nil)
 	verifPoint("scope.Close.won")
 
 	err := s.dispose()
 	s.closeErr = err
-	s.closer.Store(0)
+	running.end()
 	close(s.closeDone)
 	return err
 }
@@ -316,18 +312,18 @@ func (s *scope) closeFromOwner() error {
 	if !atomic.CompareAndSwapInt32(&s.disposed, 0, 1) {
 		// (the owner's Close may itself have been called from inside this scope's
 		// disposal, by the Close method of one of its instances)
-		if runsOn(&s.closer) {
+		if s.heldByCaller() {
 			return nil
 		}
 		<-s.closeDone
 		return s.closeErr
 	}
-	s.closer.Store(goroutineID())
+	running := beginDisposal(s, nil)
 	verifPoint("scope.closeFromOwner.won")
 
 	err := s.dispose()
 	s.closeErr = err
-	s.closer.Store(0)
+	running.end()
 	close(s.closeDone)
 	return err
 }
